@@ -29,6 +29,9 @@ type c16Case struct {
 	// Prior: an earlier NoWait SetRateLimit on the same client whose ACK ("ok" errno 0 / "refused" EPERM) is
 	// still unread when the setter under test runs: it must send its one request all the same
 	Prior string `json:"prior_undrained_nowait_request,omitempty"`
+	// NoAck: the kernel never answers (every receive says EAGAIN): a WaitForReply setter gives up with an
+	// error after having sent its ONE request
+	NoAck bool `json:"no_ack_ever,omitempty"`
 }
 
 var c16Setters = []string{"SetPID", "SetRateLimit", "SetBacklogLimit", "SetEnabled", "SetImmutable", "SetFailure", "SetBacklogWaitTime"}
@@ -38,6 +41,9 @@ var c16U32 = []int64{0, 1, 2, 63, 64, 8192, 65535, 65536, 1<<31 - 1, 1 << 31, 1<
 func c16Setter(c *mon.Ctx, k *c16Case) {
 	sim := simkernel.New(uint32(k.Arg%1000) + 1)
 	sim.OnSend = func(s *simkernel.Sim, idx int, m simkernel.SentMsg) []simkernel.Step {
+		if k.NoAck {
+			return nil
+		}
 		if idx == 0 && k.Prior == "refused" {
 			return []simkernel.Step{{Dgram: simkernel.Ack(m, syscall.EPERM)}}
 		}
@@ -94,7 +100,11 @@ func c16Setter(c *mon.Ctx, k *c16Case) {
 	desc := fmt.Sprintf("%s(%d) nowait=%v prior=%q", k.Setter, k.Arg, k.NoWait, k.Prior)
 	// with an unread ACK of an earlier NoWait request a WaitForReply setter reads that ACK as its own (known
 	// finding of C17): its return value is not judged here, its request is
-	judgeReply := k.Prior == "" || k.NoWait
+	judgeReply := (k.Prior == "" || k.NoWait) && !(k.NoAck && !k.NoWait)
+	if k.NoAck && !k.NoWait && err == nil {
+		c.Violation("setter-no-ack-ok", fmt.Sprintf("%s returned nil although no acknowledgement ever arrived", desc), k)
+		return
+	}
 	if err != nil && judgeReply {
 		c.Violation("setter-error", fmt.Sprintf("%s returned %v although the kernel acknowledged with errno 0", desc, err), k)
 		return
@@ -306,6 +316,9 @@ func c16Run(c *mon.Ctx) {
 		for _, a := range args {
 			for _, nw := range []bool{false, true} {
 				cases = append(cases, &c16Case{Kind: "setter", Setter: s, Arg: a, NoWait: nw})
+				if a == args[0] {
+					cases = append(cases, &c16Case{Kind: "setter", Setter: s, Arg: a, NoWait: nw, NoAck: true})
+				}
 				for _, prior := range []string{"ok", "refused"} {
 					cases = append(cases, &c16Case{Kind: "setter", Setter: s, Arg: a, NoWait: nw, Prior: prior})
 				}
@@ -325,7 +338,7 @@ func c16Run(c *mon.Ctx) {
 	c.ForEach(len(cases), func(w, i int) {
 		c16Setter(c, cases[i])
 		ev.Add(1)
-		nt.AddString(fmt.Sprintf("%s/%d/%v/%s", cases[i].Setter, cases[i].Arg, cases[i].NoWait, cases[i].Prior))
+		nt.AddString(fmt.Sprintf("%s/%d/%v/%s/%v", cases[i].Setter, cases[i].Arg, cases[i].NoWait, cases[i].Prior, cases[i].NoAck))
 		if c.WantSample() {
 			c.Sample(cases[i])
 		}
